@@ -248,6 +248,21 @@ theorem C19_src_unique (xs : List Int) :
       (xs.Pairwise (· ≤ ·) → r.Pairwise (· < ·)) :=
   ⟨_, AC.BigintsTie.unique_tie xs, mem_uniq xs, (C19_unique_general xs).1, fun hs => pairwise_uniq xs hs⟩
 
+/-- translated `BitsSet` on a non-negative integer: no panic; strictly ascending; exactly the set bits -/
+theorem C19_src_bitsSet (x : Nat) :
+    ∃ r : List Nat, bigintBitsSet (x : Int) = some (r.map Int.ofNat) ∧ r.Pairwise (· < ·) ∧
+      ∀ i, i ∈ r ↔ x.testBit i = true :=
+  ⟨_, AC.BigintsTie.bitsSet_tie x, C19_bitsSet_spec x⟩
+
+/-- translated `Pow2UpTo`: never panics, never out of loop fuel; empty for `x ≤ 0`, otherwise
+    `1, 2, …, 2^k` with `2^k ≤ x < 2^(k+1)` -/
+theorem C19_src_pow2UpTo (x : Int) :
+    ∃ r : List Nat, bigintPow2UpTo x = some (r.map Int.ofNat) ∧ (x ≤ 0 → r = []) ∧
+      (∀ n : Nat, x = (n : Int) → 1 ≤ n → ∃ k, r = (List.range (k + 1)).map (2 ^ ·) ∧ 2 ^ k ≤ n ∧ n < 2 ^ (k + 1)) := by
+  refine ⟨_, AC.BigintsTie.pow2UpTo_tie x, C19_pow2UpTo_nonpos x, ?_⟩
+  rintro n rfl hn
+  exact C19_pow2UpTo_spec n hn
+
 /-- translated `Contains` / `Index` -/
 theorem C19_src_contains (n : Int) (xs : List Int) :
     bigintsContains n xs = some (decide (n ∈ xs)) := by
